@@ -676,6 +676,14 @@ func generate(r *kit.Rng, maxStmts int) *Set {
 	// module's is not something YANG defines; Expect[""] covers the main file,
 	// ExpectSub the submodule files)
 	var subRoots [][]*node
+	// with two submodules both included by the main module, each may augment one
+	// top-level container of the main module: the children they add keep the order
+	// of the include statements
+	var subAugTarget *node
+	var subAugKids []string
+	if nSub == 2 && !nested && len(targets) > 0 && r.Chance(2, 3) {
+		subAugTarget = targets[r.Intn(len(targets))]
+	}
 	for i := 1; i <= nSub; i++ {
 		var b strings.Builder
 		fmt.Fprintf(&b, "submodule s%d {\n  belongs-to m { prefix m; }\n", i)
@@ -704,6 +712,18 @@ func generate(r *kit.Rng, maxStmts int) *Set {
 		g.feats = saveF
 		g.tdefs = saveT
 		emit(&b, 1, body)
+		if subAugTarget != nil {
+			savePlain := g.plain
+			g.plain = true
+			add := []*stmt{g.leaf(), g.leaf()}
+			g.plain = savePlain
+			fmt.Fprintf(&b, "  augment \"/%s\" {\n", subAugTarget.name)
+			emit(&b, 2, add)
+			b.WriteString("  }\n")
+			for _, a := range add {
+				subAugKids = append(subAugKids, a.name)
+			}
+		}
 		b.WriteString("}\n")
 		set.Files[fmt.Sprintf("s%d", i)] = b.String()
 		subRoots = append(subRoots, g.expand(body))
@@ -736,6 +756,14 @@ func generate(r *kit.Rng, maxStmts int) *Set {
 		}
 	}
 	record(set, "", rootNodes)
+	if subAugTarget != nil {
+		// the target gets children from three files: what the main module wrote keeps its
+		// order, what the submodules add keeps the order of the includes; how the two
+		// interleave is not prescribed
+		set.Expect["~~"+subAugTarget.name+"#main"] = set.Expect[subAugTarget.name]
+		set.Expect["~~"+subAugTarget.name+"#submodules"] = subAugKids
+		delete(set.Expect, subAugTarget.name)
+	}
 	for i, sr := range subRoots {
 		recordAs(set, fmt.Sprintf("~s%d", i+1), "", sr) // "~sN": subsequence expectation at the root
 	}
